@@ -79,7 +79,10 @@ def discharge(obligations, tier="quick", workers=None, progress=None):
         except Exception as e:  # noqa
             ob.result, ob.backend, ob.info["error"] = "unknown", "none", repr(e)
             continue
-        jobs.append((i, smt2, rlimit, timeout_ms, True, cvc5_timeout, both))
+        if ob.kind == "canary":
+            jobs.append((i, smt2, 3_000_000, 2500, False, 0, False))
+        else:
+            jobs.append((i, smt2, rlimit, timeout_ms, True, cvc5_timeout, both))
     workers = workers or min(16, os.cpu_count() or 4)
     disagreements = []
     if not jobs:
